@@ -1,4 +1,1032 @@
-//! C20 — not built yet.
+//! C20 — approximate numeric operations stay close to the real function.
+//! Tie of Model/Fixed.v to newton_inversion.rs, inverse_sqrt.rs, goldschmidt_division.rs,
+//! fixed_multiply.rs and pwl/approx_*.rs: every op is instantiated (CustomOperation +
+//! run_instantiation_pass), evaluated by random_evaluate over a swept input array, and the
+//! integer model must give the same words point by point.  The PWL coefficient tables are read
+//! back from the instantiated graph's Constant nodes on every run and (a) passed to the model,
+//! (b) compared with the tables committed in coq/Model/PwlData.v (the ones the interval proofs
+//! are about).  Native oracle: |Rust result - f64 exact function| within the tolerance the
+//! op's own tests/docs state, at every swept point of the documented domain.
+use crate::coqfmt::*;
 use crate::out::Out;
-pub const HEADER: &str = "From CC Require Import Base.Prelude.";
-pub fn run(_tier: &str, _seed: u64, _out: &mut Out) {}
+use crate::rng::Rng;
+use ciphercore_base::custom_ops::{run_instantiation_pass, CustomOperation};
+use ciphercore_base::data_types::*;
+use ciphercore_base::data_values::Value;
+use ciphercore_base::evaluators::random_evaluate;
+use ciphercore_base::graphs::util::simple_context;
+use ciphercore_base::graphs::{Context, Operation};
+use ciphercore_base::ops::fixed_precision::fixed_multiply::FixedMultiply;
+use ciphercore_base::ops::fixed_precision::fixed_precision_config::FixedPrecisionConfig;
+use ciphercore_base::ops::goldschmidt_division::GoldschmidtDivision;
+use ciphercore_base::ops::inverse_sqrt::InverseSqrt;
+use ciphercore_base::ops::newton_inversion::NewtonInversion;
+use ciphercore_base::ops::pwl::approx_exponent::ApproxExponent;
+use ciphercore_base::ops::pwl::approx_gelu::ApproxGelu;
+use ciphercore_base::ops::pwl::approx_sigmoid::ApproxSigmoid;
+use ciphercore_base::ops::taylor_exponent::TaylorExponent;
+use ciphercore_base::inline::inline_common::DepthOptimizationLevel;
+use ciphercore_base::inline::inline_ops::{inline_operations, InlineConfig, InlineMode};
+use ciphercore_base::mpc::mpc_compiler::{prepare_for_mpc_evaluation, IOStatus};
+use serde_json::json;
+use std::panic::AssertUnwindSafe;
+
+pub const HEADER: &str = "From CC Require Import Base.Prelude Model.Fixed Model.PwlData Model.Taylor.";
+
+const CHUNK: usize = 16;
+
+fn mask(st: ScalarType) -> u128 {
+    if st.size_in_bits() >= 128 {
+        u128::MAX
+    } else {
+        (1u128 << st.size_in_bits()) - 1
+    }
+}
+fn sgb(st: ScalarType) -> &'static str {
+    if st.is_signed() {
+        "true"
+    } else {
+        "false"
+    }
+}
+
+/// Instantiate `mk()` on `args.len()` arrays of type st[n] and evaluate. Words (mod 2^w) out.
+fn eval_op<F: Fn() -> CustomOperation>(mk: F, st: ScalarType, args: &[Vec<u128>]) -> Outcome<(Vec<u128>, Context)> {
+    let n = args[0].len() as u64;
+    let t = array_type(vec![n], st);
+    let args: Vec<Vec<u128>> = args.to_vec();
+    observe(AssertUnwindSafe(move || {
+        let c = simple_context(|g| {
+            let mut ins = vec![];
+            for _ in 0..args.len() {
+                ins.push(g.input(t.clone())?);
+            }
+            g.custom_op(mk(), ins)
+        })?;
+        let mapped = run_instantiation_pass(c)?;
+        let ctx = mapped.get_context();
+        let mut vals = vec![];
+        for a in args.iter() {
+            vals.push(Value::from_flattened_array(a, st)?);
+        }
+        let r = random_evaluate(ctx.get_main_graph()?, vals)?;
+        let out = r.to_flattened_array_u128(t.clone())?;
+        let m = mask(st);
+        Ok((out.into_iter().map(|x| x & m).collect(), ctx))
+    }))
+}
+
+fn sweep_pos(rng: &mut Rng, lo: u128, hi: u128, n: usize) -> Vec<u128> {
+    // points of [lo, hi): everything if small, else ends, powers of two +-1, then uniform
+    let mut v: Vec<u128> = vec![];
+    if hi <= lo {
+        return v;
+    }
+    if hi - lo <= n as u128 {
+        return (lo..hi).collect();
+    }
+    for x in [lo, lo + 1, lo + 2, hi - 1, hi - 2] {
+        v.push(x);
+    }
+    let mut p = 1u128;
+    while p < hi {
+        for x in [p.wrapping_sub(1), p, p + 1] {
+            if x >= lo && x < hi {
+                v.push(x);
+            }
+        }
+        p <<= 1;
+    }
+    while v.len() < n {
+        // half uniform, half log-uniform
+        let x = if rng.chance(1, 2) {
+            lo + (rng.u128() % (hi - lo))
+        } else {
+            let bits = 1 + rng.below(128 - (hi - 1).leading_zeros() as u64) as u32;
+            let m = if bits >= 128 { u128::MAX } else { (1u128 << bits) - 1 };
+            let y = (rng.u128() & m) | (1u128 << (bits - 1));
+            if y < lo || y >= hi {
+                continue;
+            }
+            y
+        };
+        v.push(x);
+    }
+    v.sort();
+    v.dedup();
+    v
+}
+
+struct Worst {
+    v: f64,
+    at: String,
+}
+impl Worst {
+    fn new() -> Self {
+        Worst { v: -1.0, at: String::new() }
+    }
+    fn upd(&mut self, v: f64, at: String) {
+        if v > self.v {
+            self.v = v;
+            self.at = at;
+        }
+    }
+}
+
+fn emit_chunks(out: &mut Out, kind: &str, f: &str, pts: &[String], res: &[u128], input: serde_json::Value, nontrivial: bool) {
+    for (ci, (p, r)) in pts.chunks(CHUNK).zip(res.chunks(CHUNK)).enumerate() {
+        let lhs = format!("map ({}) [{}]", f, p.join("; "));
+        let rhs = list(r, |x| format!("Ok {}", x));
+        let mut inp = input.clone();
+        inp["chunk"] = json!(ci);
+        inp["first_point"] = json!(p[0]);
+        out.case(kind, lhs, rhs, inp, nontrivial);
+    }
+}
+
+fn tolog2(cap: u64) -> u64 {
+    // "rule of thumb is to set it to 1 + log(denominator_cap_2k)"
+    1 + (64 - (cap.max(1) - 1).leading_zeros() as u64)
+}
+
+// ------------------------------------------------------------------------------- Newton-type ops
+fn run_newton(tier: &str, rng: &mut Rng, out: &mut Out, worst: &mut std::collections::BTreeMap<String, Worst>) {
+    let npts = if tier == "quick" { 200 } else { 3000 };
+    // (cap, iterations): the test's (10,5), the doc example (4,10), rule-of-thumb counts, caps beyond sweepable
+    let mut cfgs: Vec<(u64, u64)> = vec![(10, 5), (4, 10), (1, 1), (2, 2), (6, 4), (8, 4), (12, 5), (16, 5)];
+    if tier != "quick" {
+        cfgs.extend([(3, 3), (5, 4), (7, 4), (9, 5), (11, 5), (14, 5), (20, 6), (24, 6), (29, 6)]);
+    }
+    for &(cap, iters) in cfgs.iter() {
+        for &st in [UINT64, INT64].iter() {
+            for with_init in [false, true] {
+                let dom = sweep_pos(rng, 1, 1u128 << cap, npts);
+                // a few out-of-domain points: tie only
+                let mut ds = dom.clone();
+                let ndom = ds.len();
+                ds.extend([0u128, 1u128 << cap, (1u128 << cap) + 5, (1u128 << 40) + 12345, u64::MAX as u128]);
+                let inits: Vec<u128> = ds
+                    .iter()
+                    .map(|&d| {
+                        // documented requirement: 2^(cap-1) <= d*x0 < 2^(cap+1); as in the tests the guess is
+                        // mostly the power of two with d*x0 in [2^(cap-1), 2^cap), sometimes any x0 of that range
+                        if d == 0 || d >= (1u128 << cap) {
+                            return 1;
+                        }
+                        let lo = ((1u128 << (cap - 1)) + d - 1) / d;
+                        let hi = (1u128 << cap) / d;
+                        if rng.chance(1, 2) && hi >= lo {
+                            lo + rng.u128() % (hi - lo + 1)
+                        } else {
+                            let mut g = 1u128;
+                            while g * d * 2 < (1u128 << cap) {
+                                g *= 2;
+                            }
+                            g
+                        }
+                    })
+                    .collect();
+                let args: Vec<Vec<u128>> = if with_init { vec![ds.clone(), inits.clone()] } else { vec![ds.clone()] };
+                let r = eval_op(|| CustomOperation::new(NewtonInversion { iterations: iters, denominator_cap_2k: cap }), st, &args);
+                let name = format!("newton cap={} it={} {} init={}", cap, iters, scalar(st), with_init);
+                out.stat(&format!("newton:{}", r.tag()));
+                let input = json!({"op":"NewtonInversion","cap":cap,"iterations":iters,"st":scalar(st),"init":with_init});
+                match r {
+                    Outcome::Ok((res, _)) => {
+                        let f = if with_init {
+                            format!("fun q => newton_inversion {} {} {} (Some (snd q)) (fst q)", sgb(st), iters, cap)
+                        } else {
+                            format!("newton_inversion {} {} {} None", sgb(st), iters, cap)
+                        };
+                        let pts: Vec<String> = if with_init {
+                            ds.iter().zip(inits.iter()).map(|(d, x)| format!("({}, {})", d, x)).collect()
+                        } else {
+                            ds.iter().map(|d| format!("{}", d)).collect()
+                        };
+                        emit_chunks(out, "newton_inversion", &f, &pts, &res, input.clone(), true);
+                        // oracle (tests: |res - 2^cap / d| <= 1 with integer division), rule-of-thumb iterations only
+                        if iters >= tolog2(cap) {
+                            let w = worst.entry(format!("newton(abs ulp) cap={}", cap)).or_insert_with(Worst::new);
+                            for i in 0..ndom {
+                                let d = ds[i];
+                                let exact = (1u128 << cap) as f64 / d as f64;
+                                let got = res[i] as u64 as i64;
+                                let e = (got as f64 - exact).abs();
+                                w.upd(e, format!("d={} got={} exact={:.3} ({})", d, got, exact, name));
+                                let q = ((1u128 << cap) / d) as i64;
+                                if (got - q).abs() > 1 {
+                                    // the unit tests' own tolerance (within 1 of the integer quotient)
+                                    out.stat("newton-exceeds-unit-test-tolerance");
+                                }
+                                if e > 2.0 {
+                                    out.violation(
+                                        "newton-inversion-tolerance",
+                                        json!({"op":"NewtonInversion","cap":cap,"iterations":iters,"st":scalar(st),"init": if with_init {json!(inits[i].to_string())} else {json!(null)},"d":d.to_string()}),
+                                        format!("result {} but 2^{}/{} = {:.4} (tolerance: 2 units)", got, cap, d, exact),
+                                    );
+                                } else {
+                                    out.oracle_ok();
+                                }
+                            }
+                        }
+                    }
+                    o => {
+                        let lhs = format!("newton_inversion {} {} {} None 1", sgb(st), iters, cap);
+                        out.case("newton_inversion", lhs, res::<u128, _>(&match o { Outcome::Err => Outcome::Err, _ => Outcome::Panic }, |x| x.to_string()), input, true);
+                    }
+                }
+            }
+        }
+    }
+    // instantiation failures: cap = 0, cap + 1 >= 32 (i32 literal shift)
+    for &(cap, iters) in [(0u64, 3u64), (30, 6), (31, 6), (32, 6), (40, 7)].iter() {
+        let st = INT64;
+        let ds: Vec<u128> = vec![1, 2, 3, 1000, 123456];
+        let r = eval_op(|| CustomOperation::new(NewtonInversion { iterations: iters, denominator_cap_2k: cap }), st, &[ds.clone()]);
+        out.stat(&format!("newton-edge cap={}:{}", cap, r.tag()));
+        let input = json!({"op":"NewtonInversion","cap":cap,"iterations":iters,"st":"I64","edge":true});
+        match r {
+            Outcome::Ok((res, _)) => {
+                let f = format!("newton_inversion true {} {} None", iters, cap);
+                let pts: Vec<String> = ds.iter().map(|d| d.to_string()).collect();
+                emit_chunks(out, "newton_inversion", &f, &pts, &res, input, true);
+                for (d, r) in ds.iter().zip(res.iter()) {
+                    let got = *r as u64 as i64;
+                    let q = ((1u128 << cap) / d) as i64;
+                    if (got - q).abs() > 1 + q / 100 {
+                        // the op's doc allows inputs below 2^32 and does not bound the cap; reported, not a documented tolerance
+                        out.stat(&format!("newton-edge-wrong cap={}", cap));
+                        out.note(&format!("newton_edge_cap{}_d{}", cap, d), json!({"got": got, "expected": q}));
+                    }
+                }
+            }
+            Outcome::Err => {
+                out.case("newton_inversion", format!("newton_inversion true {} {} None 1", iters, cap), "Err".into(), input, true);
+            }
+            Outcome::Panic => {
+                out.case("newton_inversion", format!("newton_inversion true {} {} None 1", iters, cap), "Panic".into(), input, true);
+            }
+        }
+    }
+}
+
+fn run_isqrt(tier: &str, rng: &mut Rng, out: &mut Out, worst: &mut std::collections::BTreeMap<String, Worst>) {
+    let npts = if tier == "quick" { 200 } else { 3000 };
+    let mut cfgs: Vec<(u64, u64)> = vec![(10, 5), (4, 10), (2, 3), (6, 5), (8, 5)];
+    if tier != "quick" {
+        cfgs.extend([(3, 4), (5, 5), (7, 5), (9, 5), (10, 6), (11, 5)]);
+    }
+    for &(cap, iters) in cfgs.iter() {
+        for &st in [UINT64, INT64].iter() {
+            for with_init in [false, true] {
+                // documented: (0, 2^(2cap-1)) and below 2^21; the tests go up to 10^6 < 2^(2cap)
+                let top = std::cmp::min(1u128 << (2 * cap), 1u128 << 21);
+                let dom = sweep_pos(rng, 1, top, npts);
+                let mut ds = dom.clone();
+                let ndom = ds.len();
+                ds.extend([0u128, top, top + 7, u64::MAX as u128]);
+                let inits: Vec<u128> = ds
+                    .iter()
+                    .map(|&d| {
+                        if d == 0 || d >= top {
+                            return 1;
+                        }
+                        // as in the test: smallest power of two g with g*g*d*4 >= 2^(2cap)
+                        let mut g = 1u128;
+                        while g * g * d * 4 < (1u128 << (2 * cap)) {
+                            g *= 2;
+                        }
+                        g
+                    })
+                    .collect();
+                let args: Vec<Vec<u128>> = if with_init { vec![ds.clone(), inits.clone()] } else { vec![ds.clone()] };
+                let r = eval_op(|| CustomOperation::new(InverseSqrt { iterations: iters, denominator_cap_2k: cap }), st, &args);
+                out.stat(&format!("isqrt:{}", r.tag()));
+                let name = format!("isqrt cap={} it={} {} init={}", cap, iters, scalar(st), with_init);
+                let input = json!({"op":"InverseSqrt","cap":cap,"iterations":iters,"st":scalar(st),"init":with_init});
+                match r {
+                    Outcome::Ok((res, _)) => {
+                        let f = if with_init {
+                            format!("fun q => inverse_sqrt {} {} {} (Some (snd q)) (fst q)", sgb(st), iters, cap)
+                        } else {
+                            format!("inverse_sqrt {} {} {} None", sgb(st), iters, cap)
+                        };
+                        let pts: Vec<String> = if with_init {
+                            ds.iter().zip(inits.iter()).map(|(d, x)| format!("({}, {})", d, x)).collect()
+                        } else {
+                            ds.iter().map(|d| d.to_string()).collect()
+                        };
+                        emit_chunks(out, "inverse_sqrt", &f, &pts, &res, input.clone(), true);
+                        if iters >= 5 || (cap <= 3 && iters >= 3) {
+                            let w = worst.entry(format!("isqrt(abs ulp) cap={}", cap)).or_insert_with(Worst::new);
+                            for i in 0..ndom {
+                                let d = ds[i];
+                                let exact = (1u128 << cap) as f64 / (d as f64).sqrt();
+                                let got = res[i] as u64 as i64;
+                                w.upd((got as f64 - exact).abs(), format!("d={} got={} exact={:.3} ({})", d, got, exact, name));
+                                // tests: |res - floor(2^cap / sqrt d)| <= 1
+                                if (got - exact as i64).abs() > 1 {
+                                    out.stat("isqrt-exceeds-unit-test-tolerance");
+                                    out.note(&format!("isqrt_over_test_tolerance_cap{}_d{}", cap, d), json!({"got": got, "exact": exact}));
+                                }
+                                if (got as f64 - exact).abs() > 2.0 {
+                                    out.violation(
+                                        "inverse-sqrt-tolerance",
+                                        json!({"op":"InverseSqrt","cap":cap,"iterations":iters,"st":scalar(st),"init": with_init,"d":d.to_string()}),
+                                        format!("result {} but 2^{}/sqrt({}) = {:.3} (tolerance: 2 units)", got, cap, d, exact),
+                                    );
+                                } else {
+                                    out.oracle_ok();
+                                }
+                            }
+                        }
+                    }
+                    Outcome::Err => { out.case("inverse_sqrt", format!("inverse_sqrt {} {} {} None 1", sgb(st), iters, cap), "Err".into(), input, true); }
+                    Outcome::Panic => { out.case("inverse_sqrt", format!("inverse_sqrt {} {} {} None 1", sgb(st), iters, cap), "Panic".into(), input, true); }
+                }
+            }
+        }
+    }
+    for &(cap, iters) in [(0u64, 3u64), (1, 3), (31, 6), (32, 6)].iter() {
+        let ds: Vec<u128> = vec![1, 2, 3, 1000, 123456, 1 << 20];
+        let r = eval_op(|| CustomOperation::new(InverseSqrt { iterations: iters, denominator_cap_2k: cap }), INT64, &[ds.clone()]);
+        out.stat(&format!("isqrt-edge cap={}:{}", cap, r.tag()));
+        let input = json!({"op":"InverseSqrt","cap":cap,"iterations":iters,"st":"I64","edge":true});
+        match r {
+            Outcome::Ok((res, _)) => {
+                let f = format!("inverse_sqrt true {} {} None", iters, cap);
+                let pts: Vec<String> = ds.iter().map(|d| d.to_string()).collect();
+                emit_chunks(out, "inverse_sqrt", &f, &pts, &res, input, true);
+                for (d, r) in ds.iter().zip(res.iter()) {
+                    let exact = (1u128 << cap) as f64 / (*d as f64).sqrt();
+                    let got = *r as u64 as i64;
+                    if (got as f64 - exact).abs() > 2.0 + exact / 100.0 {
+                        out.stat(&format!("isqrt-edge-wrong cap={}", cap));
+                        out.note(&format!("isqrt_edge_cap{}_d{}", cap, d), json!({"got": got, "expected": exact}));
+                    }
+                }
+            }
+            Outcome::Err => { out.case("inverse_sqrt", format!("inverse_sqrt true {} {} None 1", iters, cap), "Err".into(), input, true); }
+            Outcome::Panic => { out.case("inverse_sqrt", format!("inverse_sqrt true {} {} None 1", iters, cap), "Panic".into(), input, true); }
+        }
+    }
+}
+
+fn run_goldschmidt(tier: &str, rng: &mut Rng, out: &mut Out, worst: &mut std::collections::BTreeMap<String, Worst>) {
+    let npts = if tier == "quick" { 200 } else { 3000 };
+    let mut cfgs: Vec<(u64, u64, ScalarType)> = vec![(10, 5, UINT64), (10, 5, INT64), (4, 10, UINT64), (8, 5, INT64), (10, 5, INT128), (20, 6, UINT128)];
+    if tier != "quick" {
+        cfgs.extend([(6, 4, INT64), (12, 5, UINT64), (16, 5, INT64), (30, 7, INT128), (30, 6, UINT128), (20, 6, INT128)]);
+    }
+    for &(cap, iters, st) in cfgs.iter() {
+        for with_init in [false, true] {
+            let w = st.size_in_bits();
+            let divs = sweep_pos(rng, 1, 1u128 << cap, npts);
+            // dividends: the tests use values far above 2^cap (123456, 1234567890123456789 for 128 bits);
+            // keep a*w below the signed range: dividend * 2^(2cap+1) < 2^(w-1)
+            let max_bits = (w - 2 - 2 * cap - 1).min(62) as u32;
+            let mut ns: Vec<u128> = vec![];
+            for (i, _) in divs.iter().enumerate() {
+                let n = match i % 5 {
+                    0 => 1 + rng.u128() % (1u128 << cap),
+                    1 => 123456u128.min((1u128 << max_bits) - 1),
+                    2 => 1 + (rng.u128() % (1u128 << max_bits)),
+                    3 => (1u128 << max_bits) - 1 - rng.below(3) as u128,
+                    _ => 1 + rng.below(20) as u128,
+                };
+                ns.push(n);
+            }
+            let ndom = divs.len();
+            let mut ds = divs.clone();
+            ds.extend([0u128, 1u128 << cap, 12345678901]);
+            ns.extend([5u128, 7, 100]);
+            let inits: Vec<u128> = ds
+                .iter()
+                .map(|&d| {
+                    if d == 0 || d >= (1u128 << cap) {
+                        return 1;
+                    }
+                    let mut g = 1u128;
+                    while g * d * 2 < (1u128 << cap) {
+                        g *= 2;
+                    }
+                    g
+                })
+                .collect();
+            let args: Vec<Vec<u128>> = if with_init { vec![ns.clone(), ds.clone(), inits.clone()] } else { vec![ns.clone(), ds.clone()] };
+            let r = eval_op(|| CustomOperation::new(GoldschmidtDivision { iterations: iters, denominator_cap_2k: cap }), st, &args);
+            out.stat(&format!("goldschmidt:{}", r.tag()));
+            let name = format!("goldschmidt cap={} it={} {} init={}", cap, iters, scalar(st), with_init);
+            let input = json!({"op":"GoldschmidtDivision","cap":cap,"iterations":iters,"st":scalar(st),"init":with_init});
+            match r {
+                Outcome::Ok((res, _)) => {
+                    let f = if with_init {
+                        format!("fun q => goldschmidt_division {} {} {} {} (Some (snd q)) (fst (fst q)) (snd (fst q))", w, sgb(st), iters, cap)
+                    } else {
+                        format!("fun q => goldschmidt_division {} {} {} {} None (fst q) (snd q)", w, sgb(st), iters, cap)
+                    };
+                    let pts: Vec<String> = (0..ds.len())
+                        .map(|i| if with_init { format!("(({}, {}), {})", ns[i], ds[i], inits[i]) } else { format!("({}, {})", ns[i], ds[i]) })
+                        .collect();
+                    emit_chunks(out, "goldschmidt_division", &f, &pts, &res, input.clone(), true);
+                    if iters == tolog2(cap) {
+                        let mut wr = Worst::new();
+                        let mut wa = Worst::new();
+                        for i in 0..ndom {
+                            let (n, d) = (ns[i], ds[i]);
+                            let exact = (n as f64) * ((1u128 << cap) as f64) / d as f64;
+                            let got = res[i] as f64; // results are far below 2^63
+                            let q = (n << cap) / d;
+                            let gotq = res[i];
+                            if q >= 100 {
+                                wr.upd((got - exact).abs() / exact, format!("n={} d={} got={} exact={:.3} ({})", n, d, gotq, exact, name));
+                            }
+                            // tests: |res - q| * 100 / q <= 1 (integer arithmetic, q = floor(n 2^cap / d)); meaningful for q > 0
+                            let diff = if gotq > q { gotq - q } else { q - gotq };
+                            if q > 0 && diff * 100 / q > 1 {
+                                out.stat("goldschmidt-exceeds-unit-test-tolerance");
+                            }
+                            // each truncation of b loses up to 2^-cap relatively: the relative part cannot be better than iterations * 2^-cap
+                            let rel_tol = f64::max(0.01, iters as f64 / (1u128 << cap) as f64);
+                            wa.upd((got - exact).abs() - rel_tol * exact, format!("n={} d={} got={} exact={:.3} ({})", n, d, gotq, exact, name));
+                            if (got - exact).abs() > rel_tol * exact + 3.0 {
+                                out.violation(
+                                    "goldschmidt-tolerance",
+                                    json!({"op":"GoldschmidtDivision","cap":cap,"iterations":iters,"st":scalar(st),"init":with_init,"dividend":n.to_string(),"divisor":d.to_string()}),
+                                    format!("result {} but 2^{}*{}/{} = {:.3} (tolerance: max(1%, iterations/2^cap) + 3 units)", gotq, cap, n, d, exact),
+                                );
+                            } else {
+                                out.oracle_ok();
+                            }
+                        }
+                        let e = worst.entry(format!("goldschmidt(rel err, quotient>=100) cap={}", cap)).or_insert_with(Worst::new);
+                        e.upd(wr.v, wr.at);
+                        let e = worst.entry(format!("goldschmidt(abs err - rel tol, units) cap={}", cap)).or_insert_with(Worst::new);
+                        e.upd(wa.v, wa.at);
+                    }
+                }
+                Outcome::Err => { out.case("goldschmidt_division", format!("goldschmidt_division {} {} {} {} None 1 1", w, sgb(st), iters, cap), "Err".into(), input, true); }
+                Outcome::Panic => { out.case("goldschmidt_division", format!("goldschmidt_division {} {} {} {} None 1 1", w, sgb(st), iters, cap), "Panic".into(), input, true); }
+            }
+        }
+    }
+    // iterations = 0 (0..iterations-1 underflows), cap = 0
+    for &(cap, iters) in [(10u64, 0u64), (0, 3)].iter() {
+        let r = eval_op(|| CustomOperation::new(GoldschmidtDivision { iterations: iters, denominator_cap_2k: cap }), INT64, &[vec![10, 20], vec![3, 7]]);
+        out.stat(&format!("goldschmidt-edge cap={} it={}:{}", cap, iters, r.tag()));
+        let input = json!({"op":"GoldschmidtDivision","cap":cap,"iterations":iters,"edge":true});
+        let lhs = format!("map (fun q => goldschmidt_division 64 true {} {} None (fst q) (snd q)) [(10, 3); (20, 7)]", iters, cap);
+        match r {
+            Outcome::Ok((res, _)) => { out.case("goldschmidt_division", lhs, list(&res, |x| format!("Ok {}", x)), input, true); }
+            Outcome::Err => { out.case("goldschmidt_division", lhs, "[Err; Err]".into(), input, true); }
+            Outcome::Panic => { out.case("goldschmidt_division", lhs, "[Panic; Panic]".into(), input, true); }
+        }
+    }
+}
+
+fn run_fixed_multiply(tier: &str, rng: &mut Rng, out: &mut Out) {
+    let npts = if tier == "quick" { 96 } else { 960 };
+    for &p in [0u64, 1, 10, 15, 30, 40].iter() {
+        let mut xs: Vec<u128> = vec![];
+        let mut ys: Vec<u128> = vec![];
+        for i in 0..npts {
+            let (x, y): (i64, i64) = match i % 4 {
+                0 => (rng.range(-(1 << 20), 1 << 20), rng.range(-(1 << 20), 1 << 20)),
+                1 => (rng.range(-(1 << 31), 1 << 31), rng.range(-(1 << 31), 1 << 31)),
+                2 => (rng.next() as i64, rng.next() as i64), // product wraps
+                _ => (*rng.pick(&[0i64, 1, -1, i64::MIN, i64::MAX, 1 << 31, -(1 << 31), (1 << p as i64) - 1, -(1 << p as i64)]), rng.range(-5, 5)),
+            };
+            xs.push(x as u64 as u128);
+            ys.push(y as u64 as u128);
+        }
+        let r = eval_op(|| CustomOperation::new(FixedMultiply { config: FixedPrecisionConfig { fractional_bits: p, debug: false } }), INT64, &[xs.clone(), ys.clone()]);
+        out.stat(&format!("fixed_multiply:{}", r.tag()));
+        let input = json!({"op":"FixedMultiply","fractional_bits":p});
+        if let Outcome::Ok((res, _)) = r {
+            let f = format!("fun q => Ok (multiply_fixed_point 64 true (fst q) (snd q) {})", p);
+            let pts: Vec<String> = xs.iter().zip(ys.iter()).map(|(x, y)| format!("({}, {})", x, y)).collect();
+            emit_chunks(out, "multiply_fixed_point", &f, &pts, &res, input.clone(), true);
+            // oracle: x*y/2^p rounded toward zero whenever the product fits i64
+            for i in 0..xs.len() {
+                let (x, y) = (xs[i] as u64 as i64 as i128, ys[i] as u64 as i64 as i128);
+                let pr = x * y;
+                if pr >= i64::MIN as i128 && pr <= i64::MAX as i128 {
+                    let e = pr / (1i128 << p);
+                    if e != res[i] as u64 as i64 as i128 {
+                        out.violation("fixed-multiply", json!({"x":x.to_string(),"y":y.to_string(),"p":p}), format!("got {} expected {}", res[i] as u64 as i64, e));
+                    } else {
+                        out.oracle_ok();
+                    }
+                }
+            }
+        } else {
+            out.violation("fixed-multiply-fails", input, "FixedMultiply failed to instantiate or evaluate".into());
+        }
+    }
+}
+
+// ------------------------------------------------------------------------------- Taylor exponent
+fn run_taylor(tier: &str, rng: &mut Rng, out: &mut Out, worst: &mut std::collections::BTreeMap<String, Worst>) {
+    let npts = if tier == "quick" { 200 } else { 4000 };
+    let mut cfgs: Vec<(u64, u64)> = vec![(5, 10), (5, 4), (5, 15), (5, 0), (3, 8)];
+    if tier != "quick" {
+        cfgs.extend([(5, 1), (5, 6), (5, 12), (5, 13), (5, 14), (8, 10), (1, 10), (0, 10), (2, 15), (5, 16)]);
+    }
+    for &(terms, p) in cfgs.iter() {
+        let input = json!({"op":"TaylorExponent","taylor_terms":terms,"fixed_precision_points":p});
+        // the two f64-derived constants, with the expressions of taylor_exponent.rs:87,137
+        let c1 = (((1u64 << p.min(62)) as f64) / 2.0_f64.ln()) as u64;
+        let c2 = (2_f64.ln() * ((1u64 << p.min(62)) as f64)) as u64;
+        let one = (1u64 << p.min(62)) as f64;
+        // documented use: |x| <= 10 (tests: 10000/1024), and exp(x) 2^p below 2^31
+        let hi_real = f64::min(10.0, (30.0 - p as f64) * 2.0_f64.ln());
+        let (lo_i, hi_i) = ((-10.0 * one) as i64, (hi_real * one) as i64);
+        let mut pts: Vec<i64> = vec![lo_i, lo_i + 1, -1, 0, 1, hi_i - 1, hi_i];
+        // integer boundaries of x / ln 2 (where the integer/fraction split changes)
+        for k in -14i64..=14 {
+            let b = (k as f64 * 2.0_f64.ln() * one) as i64;
+            for x in [b - 1, b, b + 1] {
+                if x >= lo_i && x <= hi_i {
+                    pts.push(x);
+                }
+            }
+        }
+        while pts.len() < npts {
+            pts.push(rng.range(lo_i, hi_i));
+        }
+        pts.sort();
+        pts.dedup();
+        let ndom = pts.len();
+        // tie only: below -10, above the representable range, extremes
+        for x in [lo_i - 1, lo_i - (one as i64), 2 * lo_i, hi_i + 1, 2 * hi_i + 3, 40 * (one as i64), i64::MAX, i64::MIN, i64::MIN + 1, -1i64 << 40, 1i64 << 40] {
+            pts.push(x);
+        }
+        for _ in 0..10 {
+            pts.push(rng.next() as i64);
+        }
+        let words: Vec<u128> = pts.iter().map(|x| *x as u64 as u128).collect();
+        let r = eval_op(|| CustomOperation::new(TaylorExponent { taylor_terms: terms, fixed_precision_points: p }), INT64, &[words.clone()]);
+        out.stat(&format!("taylor:{}", r.tag()));
+        match r {
+            Outcome::Ok((res, _)) => {
+                let f = format!("taylor_exponent {} {} {} {}", terms, p, c1, c2);
+                let spts: Vec<String> = words.iter().map(|x| x.to_string()).collect();
+                emit_chunks(out, "taylor_exponent", &f, &spts, &res, input.clone(), true);
+                if terms >= 5 && p == 0 {
+                    // documented by test_exp_integer: with zero precision the op computes 2^x exactly
+                    for i in 0..ndom {
+                        let x = pts[i];
+                        if (0..=10).contains(&x) {
+                            if res[i] as u64 as i64 != 1i64 << x {
+                                out.violation("taylor-exponent-p0", json!({"op":"TaylorExponent","taylor_terms":terms,"fixed_precision_points":0,"x":x}), format!("got {} expected 2^{}", res[i] as u64 as i64, x));
+                            } else {
+                                out.oracle_ok();
+                            }
+                        }
+                    }
+                } else if terms >= 5 {
+                    let wk = format!("taylor_exp(abs err - 1%, units) p={}", p);
+                    for i in 0..ndom {
+                        let x = pts[i] as f64 / one;
+                        let exact = x.exp() * one;
+                        let got = res[i] as u64 as i64;
+                        // tests (p = 10 only): |expected - actual| / (1 + max(expected, actual)) <= 0.01, expected = trunc(exp(x) 2^p)
+                        let e = exact as i64;
+                        let rel = ((e - got).abs() as f64) / (1.0 + f64::max(e as f64, got as f64));
+                        if rel > 0.01 && p == 10 {
+                            out.stat("taylor-exceeds-unit-test-tolerance");
+                        }
+                        // tolerance: 1% relative plus 2 units, enforced at the tests' precision 10; other precisions have no
+                        // documented tolerance (the constants 1/ln 2, ln 2 are quantised to p bits, and the cutoff compares
+                        // x/ln 2 with -10): exceedances are counted and the worst error is printed, not failed
+                        let excess = (got as f64 - exact).abs() - 0.01 * exact;
+                        worst.entry(wk.clone()).or_insert_with(Worst::new).upd(excess, format!("x={} got={} exact={:.3}", pts[i], got, exact));
+                        if excess > 2.0 {
+                            if p == 10 {
+                                out.violation("taylor-exponent-tolerance", json!({"op":"TaylorExponent","taylor_terms":terms,"fixed_precision_points":p,"x":pts[i]}), format!("got {} exact {:.3}: beyond 1% + 2 units", got, exact));
+                            } else {
+                                out.stat(&format!("taylor-beyond-1pct-2units p={}", p));
+                                if got == 0 && x > -10.0 {
+                                    out.stat(&format!("taylor-zeroed-above-minus-10 p={}", p));
+                                }
+                            }
+                        } else {
+                            out.oracle_ok();
+                        }
+                    }
+                }
+            }
+            Outcome::Err => { out.case("taylor_exponent", format!("taylor_exponent {} {} {} {} 0", terms, p, c1, c2), "Err".into(), input, true); }
+            Outcome::Panic => { out.case("taylor_exponent", format!("taylor_exponent {} {} {} {} 0", terms, p, c1, c2), "Panic".into(), input, true); }
+        }
+    }
+}
+
+// ------------------------------------------------------------------------------- piecewise-linear ops
+#[derive(Clone, Copy, PartialEq, Debug)]
+enum Pwl {
+    Exp,
+    Sigmoid,
+    Gelu,
+}
+impl Pwl {
+    fn name(&self) -> &'static str {
+        match self {
+            Pwl::Exp => "exp",
+            Pwl::Sigmoid => "sigmoid",
+            Pwl::Gelu => "gelu",
+        }
+    }
+    /// (left, right, flatten_left, flatten_right) as in approx_{exponent,sigmoid,gelu}.rs
+    fn params(&self) -> (f32, f32, bool, bool) {
+        match self {
+            Pwl::Exp => (-16.0, 16.0, true, false),
+            Pwl::Sigmoid => (-8.0, 8.0, true, true),
+            Pwl::Gelu => (-4.0, 4.0, true, false),
+        }
+    }
+    fn op(&self, p: u64, lb: u64) -> CustomOperation {
+        match self {
+            Pwl::Exp => CustomOperation::new(ApproxExponent { precision: p }),
+            Pwl::Sigmoid => CustomOperation::new(ApproxSigmoid { precision: p, approximation_log_buckets: lb }),
+            Pwl::Gelu => CustomOperation::new(ApproxGelu { precision: p, approximation_log_buckets: lb }),
+        }
+    }
+    /// the f32 function handed to create_approximation (copied from the op's source)
+    fn f32(&self, x: f32) -> f32 {
+        match self {
+            Pwl::Exp => x.exp(),
+            Pwl::Sigmoid => 1.0 / (1.0 + (-x).exp()),
+            Pwl::Gelu => {
+                let tanh_arg = (2.0 / std::f32::consts::PI).sqrt() * (x + 0.044715 * x * x * x);
+                let ex = tanh_arg.exp();
+                let emx = (-tanh_arg).exp();
+                let tanh = (ex - emx) / (ex + emx);
+                0.5 * x * (1.0 + tanh)
+            }
+        }
+    }
+    /// the exact real function, in f64 (GeLU: the tanh form the code targets, no erf in std)
+    fn f64(&self, x: f64) -> f64 {
+        match self {
+            Pwl::Exp => x.exp(),
+            Pwl::Sigmoid => 1.0 / (1.0 + (-x).exp()),
+            Pwl::Gelu => 0.5 * x * (1.0 + ((2.0 / std::f64::consts::PI).sqrt() * (x + 0.044715 * x * x * x)).tanh()),
+        }
+    }
+}
+
+struct Tables {
+    alphas: Vec<i64>,
+    betas: Vec<i64>,
+    left_fp: i64,
+    divisor: u128,
+    last_scale: u128,
+}
+
+/// Read the PWL tables back from the instantiated context: the INT64 array constants (alphas,
+/// betas in creation order), the INT64 scalar constant (left), the Truncate scales.
+fn extract_tables(ctx: &Context) -> Option<Tables> {
+    let mut arrays: Vec<Vec<i64>> = vec![];
+    let mut scalars: Vec<i64> = vec![];
+    let mut truncs: Vec<u128> = vec![];
+    for g in ctx.get_graphs() {
+        for n in g.get_nodes() {
+            match n.get_operation() {
+                Operation::Constant(t, v) => {
+                    if t.is_array() && t.get_scalar_type() == INT64 {
+                        arrays.push(v.to_flattened_array_i64(t).ok()?);
+                    } else if t.is_scalar() && t.get_scalar_type() == INT64 {
+                        scalars.push(v.to_i64(INT64).ok()?);
+                    }
+                }
+                Operation::Truncate(s) => truncs.push(s),
+                _ => {}
+            }
+        }
+    }
+    if arrays.len() != 2 || scalars.len() != 1 || truncs.len() != 2 {
+        return None;
+    }
+    Some(Tables { alphas: arrays[0].clone(), betas: arrays[1].clone(), left_fp: scalars[0], divisor: truncs[0], last_scale: truncs[1] })
+}
+
+fn zl(xs: &[i64]) -> String {
+    list(xs, |x| z_i128(*x as i128))
+}
+
+/// which (op, precision, log_buckets) have committed tables with interval proofs
+const COMMITTED: [(Pwl, u64, u64); 6] = [
+    (Pwl::Exp, 10, 6),
+    (Pwl::Exp, 15, 6),
+    (Pwl::Sigmoid, 10, 5),
+    (Pwl::Sigmoid, 15, 5),
+    (Pwl::Gelu, 10, 5),
+    (Pwl::Gelu, 15, 5),
+];
+fn pwl_points(rng: &mut Rng, t: &Tables, lb: u64, npts: usize) -> (Vec<i64>, usize) {
+    // documented domain [left, right]: every breakpoint and its neighbours, then uniform;
+    // then (tie only) the outside: the two outer segments, far values, extremes
+    let div = t.divisor as i64;
+    let nseg = 1i64 << lb;
+    let right = t.left_fp + nseg * div;
+    let mut v: Vec<i64> = vec![];
+    let stride = std::cmp::max(1, (3 * (nseg as usize + 1)) / (npts / 2).max(1)) as i64;
+    let mut i = 0;
+    while i <= nseg {
+        let b = t.left_fp + i * div;
+        for x in [b - 1, b, b + 1] {
+            if x >= t.left_fp && x <= right {
+                v.push(x);
+            }
+        }
+        i += stride;
+    }
+    v.push(right);
+    v.push(right - 1);
+    while v.len() < npts {
+        v.push(rng.range(t.left_fp, right));
+    }
+    v.sort();
+    v.dedup();
+    let ndom = v.len();
+    for x in [t.left_fp - 1, t.left_fp - div / 2, t.left_fp - div + 1, t.left_fp - div, t.left_fp - div - 1, t.left_fp - 3 * div, right + 1, right + div, right + 5 * div, i64::MIN, i64::MIN + 1, i64::MAX, -1i64 << 40, 1i64 << 40] {
+        v.push(x);
+    }
+    for _ in 0..8 {
+        v.push(rng.range(t.left_fp - 4 * div, t.left_fp - 1));
+        v.push(rng.range(right + 1, right + 4 * div));
+    }
+    (v, ndom)
+}
+
+fn run_pwl(tier: &str, rng: &mut Rng, out: &mut Out, worst: &mut std::collections::BTreeMap<String, Worst>) {
+    let npts = if tier == "quick" { 200 } else { 4000 };
+    let mut cfgs: Vec<(Pwl, u64, u64)> = COMMITTED.to_vec();
+    cfgs.extend([(Pwl::Exp, 4, 6), (Pwl::Sigmoid, 4, 5), (Pwl::Gelu, 4, 5), (Pwl::Sigmoid, 12, 4), (Pwl::Gelu, 12, 6)]);
+    if tier != "quick" {
+        cfgs.extend([(Pwl::Exp, 1, 6), (Pwl::Exp, 12, 6), (Pwl::Exp, 17, 6), (Pwl::Sigmoid, 1, 5), (Pwl::Sigmoid, 20, 5), (Pwl::Sigmoid, 30, 5), (Pwl::Sigmoid, 15, 6), (Pwl::Gelu, 2, 5), (Pwl::Gelu, 20, 5), (Pwl::Gelu, 30, 5), (Pwl::Gelu, 15, 4), (Pwl::Sigmoid, 15, 1), (Pwl::Sigmoid, 10, 8)]);
+    }
+    for &(kind, p, lb) in cfgs.iter() {
+        let committed = COMMITTED.iter().any(|(k, cp, clb)| *k == kind && *cp == p && *clb == lb);
+        let input = json!({"op": kind.name(), "precision": p, "log_buckets": lb});
+        // first instantiate on a dummy point to get the tables
+        let r0 = eval_op(|| kind.op(p, lb), INT64, &[vec![0u128]]);
+        out.stat(&format!("pwl-instantiate {}:{}", kind.name(), r0.tag()));
+        let ctx = match r0 {
+            Outcome::Ok((_, ctx)) => ctx,
+            _ => {
+                out.violation("pwl-instantiate", input, "PWL op failed to instantiate for a documented precision".into());
+                continue;
+            }
+        };
+        let t = match extract_tables(&ctx) {
+            Some(t) => t,
+            None => {
+                out.violation("pwl-extract", input, "could not locate the PWL tables in the instantiated graph (shape of create_approximation changed)".into());
+                continue;
+            }
+        };
+        let tname = format!("{}_p{}", kind.name(), p);
+        if committed {
+            // T: the tables the interval theorems talk about are the tables the code has now
+            out.case("T:tables_eq", format!("({t}_alphas, {t}_betas, {t}_left, {t}_divisor, {t}_lb)", t = tname),
+                format!("({}, {}, {}, {}, {})", zl(&t.alphas), zl(&t.betas), z_i128(t.left_fp as i128), t.divisor, lb), input.clone(), true);
+        }
+        // integer post-processing of the sampled control points (xs, ys recomputed with the same f32 code)
+        let (left, right, fl, fr) = kind.params();
+        let scale = 1i64 << lb;
+        let (mut xs, mut ys) = (vec![], vec![]);
+        for i in -1..(scale + 2) {
+            let x = left + (right - left) * (i as f32) / (scale as f32);
+            let y = kind.f32(x);
+            xs.push((x * ((1i64 << p) as f32)) as i64);
+            ys.push((y * ((1i64 << p) as f32)) as i64);
+        }
+        out.case("pwl_tables_of", format!("pwl_tables_of {} {} {} {} {}", p, fl, fr, zl(&xs), zl(&ys)),
+            format!("Ok ({}, {})", zl(&t.alphas), zl(&t.betas)), input.clone(), true);
+        if t.last_scale != 1u128 << p {
+            out.violation("pwl-extract", input.clone(), "final Truncate scale is not 2^precision".into());
+        }
+        // sweep
+        let (pts, ndom) = pwl_points(rng, &t, lb, npts);
+        let words: Vec<u128> = pts.iter().map(|x| *x as u64 as u128).collect();
+        let r = eval_op(|| kind.op(p, lb), INT64, &[words.clone()]);
+        let res = match r {
+            Outcome::Ok((res, _)) => res,
+            _ => {
+                out.violation("pwl-evaluate", input, "PWL op failed to evaluate".into());
+                continue;
+            }
+        };
+        let f = format!("pwl_eval {} {} {} {} {} {}", p, lb, zl(&t.alphas), zl(&t.betas), z_i128(t.left_fp as i128), t.divisor);
+        let spts: Vec<String> = words.iter().map(|x| x.to_string()).collect();
+        emit_chunks(out, "pwl_eval", &f, &spts, &res, input.clone(), true);
+        // oracle on the documented domain
+        let one = (1u64 << p) as f64;
+        let wk = format!("{}(abs err) p={} lb={}", kind.name(), p, lb);
+        for i in 0..ndom {
+            let x = pts[i] as f64 / one;
+            let got = res[i] as u64 as i64;
+            let exact = kind.f64(x);
+            match kind {
+                Pwl::Exp => {
+                    // tests: |expected - actual| / (1 + max(expected, actual)) <= 0.05 in units of 2^-p, expected = trunc(exp(x) 2^p)
+                    let e = (exact * one) as i64;
+                    let rel = ((e - got).abs() as f64) / (1.0 + f64::max(e as f64, got as f64));
+                    if rel > 0.05 && x.abs() <= 10000.0 / 1024.0 {
+                        out.stat("exp-exceeds-unit-test-tolerance");
+                    }
+                    // tolerance: 5% relative plus 2 units (values of a unit or two cannot be met relatively)
+                    let excess = (got as f64 - exact * one).abs() - 0.05 * exact * one;
+                    worst.entry(format!("exp(abs err - 5%, units) p={}", p)).or_insert_with(Worst::new).upd(excess, format!("x={} got={} exact={:.3}", pts[i], got, exact * one));
+                    worst.entry(format!("exp(rel err where exact>=100 units) p={}", p)).or_insert_with(Worst::new).upd(if exact * one >= 100.0 { (got as f64 - exact * one).abs() / (exact * one) } else { 0.0 }, format!("x={} got={} exact={:.3}", pts[i], got, exact * one));
+                    if excess > 2.0 {
+                        out.violation("approx-exponent-tolerance", json!({"op":"ApproxExponent","precision":p,"x":pts[i]}), format!("got {} exact {:.3}: beyond 5% + 2 units", got, exact * one));
+                    } else {
+                        out.oracle_ok();
+                    }
+                }
+                Pwl::Sigmoid | Pwl::Gelu => {
+                    // tests: absolute error <= 0.01; source comments: 0.0045 (sigmoid), 0.0059 (gelu) for log_buckets = 5
+                    let err = (got as f64 / one - exact).abs();
+                    worst.entry(wk.clone()).or_insert_with(Worst::new).upd(err, format!("x={} got={} exact={:.6}", pts[i], got, exact * one));
+                    let tol = if lb >= 5 { 0.01 } else { 0.01 * (1u64 << (2 * (5 - lb))) as f64 };
+                    // very low precisions cannot represent the function to 0.01: allow 2 ulps
+                    let tol = tol + 2.0 / one;
+                    if err > tol {
+                        out.violation(if kind == Pwl::Sigmoid { "approx-sigmoid-tolerance" } else { "approx-gelu-tolerance" },
+                            json!({"op":kind.name(),"precision":p,"log_buckets":lb,"x":pts[i]}), format!("got {} exact {:.4} abs err {:.5} > {:.5}", got, exact * one, err, tol));
+                    } else {
+                        out.oracle_ok();
+                    }
+                }
+            }
+        }
+    }
+}
+
+// ------------------------------------------------------------------------------- compiled smoke test
+/// thorough tier only: the compiled (MPC, evaluated by one evaluator) version of three ops on a
+/// handful of points agrees with the plaintext evaluation up to a few units of truncation error.
+fn run_compiled_smoke(out: &mut Out) {
+    let cases: Vec<(&str, Box<dyn Fn() -> CustomOperation>, ScalarType, Vec<i64>, i64)> = vec![
+        ("NewtonInversion(5,10)", Box::new(|| CustomOperation::new(NewtonInversion { iterations: 5, denominator_cap_2k: 10 })), INT64, vec![1, 3, 123, 700], 3),
+        ("ApproxSigmoid(p=10)", Box::new(|| CustomOperation::new(ApproxSigmoid { precision: 10, approximation_log_buckets: 5 })), INT64, vec![-3000, -1, 700, 5000], 3),
+        ("FixedMultiply(10) by itself", Box::new(|| CustomOperation::new(FixedMultiply { config: FixedPrecisionConfig { fractional_bits: 10, debug: false } })), INT64, vec![-3000, 5, 70000, 1 << 20], 2),
+    ];
+    for (name, mk, st, xs, tol) in cases.into_iter() {
+        let two_args = name.starts_with("FixedMultiply");
+        let words: Vec<u128> = xs.iter().map(|x| *x as u64 as u128).collect();
+        let plain = eval_op(|| mk(), st, &if two_args { vec![words.clone(), words.clone()] } else { vec![words.clone()] });
+        let n = words.len() as u64;
+        let t = array_type(vec![n], st);
+        let w2 = words.clone();
+        let compiled = observe(AssertUnwindSafe(|| {
+            let c = simple_context(|g| {
+                let i = g.input(t.clone())?;
+                if two_args {
+                    g.custom_op(mk(), vec![i.clone(), i])
+                } else {
+                    g.custom_op(mk(), vec![i])
+                }
+            })?;
+            let cfg = InlineConfig { default_mode: InlineMode::DepthOptimized(DepthOptimizationLevel::Default), ..Default::default() };
+            let inst = run_instantiation_pass(c)?.get_context();
+            let inl = inline_operations(&inst, cfg.clone())?.get_context();
+            let comp = prepare_for_mpc_evaluation(&inl, vec![vec![IOStatus::Party(0)]], vec![vec![IOStatus::Party(0)]], cfg)?.get_context();
+            let r = random_evaluate(comp.get_main_graph()?, vec![Value::from_flattened_array(&w2, st)?])?;
+            r.to_flattened_array_u128(t.clone())
+        }));
+        out.stat(&format!("compiled-smoke {}:{}", name, compiled.tag()));
+        match (plain, compiled) {
+            (Outcome::Ok((p, _)), Outcome::Ok(c)) => {
+                for i in 0..p.len() {
+                    let (a, b) = (p[i] as u64 as i64, c[i] as u64 as i64);
+                    if (a - b).abs() > tol {
+                        out.violation("compiled-vs-plaintext", json!({"op":name,"x":xs[i]}), format!("plaintext {} compiled {} (allowed truncation error {})", a, b, tol));
+                    } else {
+                        out.oracle_ok();
+                    }
+                }
+            }
+            _ => out.violation("compiled-fails", json!({"op":name}), "compilation or evaluation of the compiled op failed".into()),
+        }
+    }
+}
+
+/// (relative, absolute numerator, absolute denominator or 0 for 2^p) claimed per op in the interval theorems
+fn claimed_tolerance(kind: Pwl, p: u64) -> (&'static str, u64, u64) {
+    match kind {
+        Pwl::Exp => ("4/100", 1, 1u64 << p),
+        Pwl::Sigmoid => ("0", 45, 10000),
+        Pwl::Gelu => ("0", 7, 1000),
+    }
+}
+fn zc(x: i128) -> String {
+    z_i128(x)
+}
+
+/// `tier = gen`: regenerate the committed Coq files that depend on the tables the Rust code builds now
+/// (Model/PwlData.v, Proofs/PwlTables_<op>_p<precision>.v, Proofs/PwlTotal.v).  Not part of a check run:
+///   harness/target/debug/ccverif C20 gen 0 /tmp/gen.jsonl
+///   python3 -c "import json;[open('coq/'+r['key'][5:],'w').write(r['value']) for r in map(json.loads,open('/tmp/gen.jsonl')) if r.get('t')=='note' and r['key'].startswith('file:')]"
+fn gen_data(out: &mut Out) {
+    let mut data = String::new();
+    data.push_str("(* Generated by `ccverif C20 gen 0 <out>` (harness/src/c20.rs gen_data) from the tables the\n   Rust code builds now; compared with the tables extracted on every run (T:tables_eq). *)\nFrom CC Require Import Base.Prelude.\n");
+    let mut total = String::new();
+    total.push_str("(* Generated (harness/src/c20.rs, tier gen): (a)+(b) combined for each committed table: the output\n   word of the integer evaluation is within rel*f + abs + 2^-p of the exact function, at every\n   input of the table's range. *)\nFrom Coq Require Import Reals.\nFrom CC Require Import Base.Prelude Model.Fixed Model.PwlData Proofs.FixedBits Proofs.FixedPwl Proofs.PwlReal.\nFrom CC Require Import");
+    for (k, p, _) in COMMITTED.iter() {
+        total.push_str(&format!(" Proofs.PwlTables_{}_p{}", k.name(), p));
+    }
+    total.push_str(".\nOpen Scope R_scope.\n");
+    for (k, p, lb) in COMMITTED.iter() {
+        let kind = *k;
+        let (p, lb) = (*p, *lb);
+        let (_, ctx) = eval_op(|| kind.op(p, lb), INT64, &[vec![0u128]]).ok().expect("instantiate");
+        let t = extract_tables(&ctx).expect("tables");
+        let n = format!("{}_p{}", kind.name(), p);
+        data.push_str(&format!("Definition {}_alphas : list Z := {}.\nDefinition {}_betas : list Z := {}.\nDefinition {}_left : Z := {}.\nDefinition {}_divisor : Z := {}.\nDefinition {}_lb : Z := {}.\n",
+            n, zl(&t.alphas), n, zl(&t.betas), n, z_i128(t.left_fp as i128), n, t.divisor, n, lb));
+        let (rel, an, ad) = claimed_tolerance(kind, p);
+        let one: i128 = 1 << p;
+        let one2: i128 = 1 << (2 * p);
+        let nseg: i128 = 1 << lb;
+        let (l, d) = (t.left_fp as i128, t.divisor as i128);
+        // per-segment interval lemmas + the table lemma
+        let mut f = String::new();
+        f.push_str(&format!("(* Generated (harness/src/c20.rs, tier gen): interval proofs for the committed table {}. *)\nFrom Coq Require Import Reals.\nFrom Interval Require Import Tactic.\nFrom CC Require Import Base.Prelude Model.PwlData Proofs.PwlReal.\nOpen Scope R_scope.\n\n", n));
+        for i in 1..=nseg {
+            let lo = l + (i - 1) * d - if i == 1 { d } else { 0 };
+            let hi = l + i * d;
+            f.push_str(&format!("Lemma {}_seg{} : seg_bound {}_fn ({}) ({}/{}) {} {} {} {} {} {}.\n", n, i, kind.name(), rel, an, ad, one, one2, zc(lo), zc(hi), zc(t.alphas[i as usize] as i128), zc(t.betas[i as usize] as i128)));
+            f.push_str(&format!("Proof. unfold seg_bound, {}_fn. intros x Hx; apply Rabs_le; split; apply Rminus_le; interval with (i_bisect x, i_taylor x, i_prec 53). Qed.\n", kind.name()));
+        }
+        f.push_str(&format!("\nLemma {n}_table : table_bound {k}_fn ({rel}) ({an}/{ad}) {p} {n}_lb {n}_left {n}_divisor {n}_alphas {n}_betas.\nProof.\n  unfold table_bound. intros i a b Hi Ha Hb.\n  change (2 ^ {n}_lb)%Z with {nseg}%Z in Hi.\n", n = n, k = kind.name(), rel = rel, an = an, ad = ad, p = p, nseg = nseg));
+        let disj: Vec<String> = (1..=nseg).map(|k| format!("i = {}", k)).collect();
+        f.push_str(&format!("  assert (Hc : ({})%Z) by lia.\n", disj.join(" \\/ ")));
+        for k in 1..=nseg {
+            let tac = format!("subst i; vm_compute in Ha, Hb; injection Ha as <-; injection Hb as <-; exact {}_seg{}", n, k);
+            if k < nseg {
+                f.push_str(&format!("  destruct Hc as [Hc|Hc]; [{}|].\n", tac));
+            } else {
+                f.push_str(&format!("  {}.\n", tac));
+            }
+        }
+        f.push_str("Qed.\n");
+        out.note(&format!("file:Proofs/PwlTables_{}.v", n), json!(f));
+        // the combined lemma
+        let amax = t.alphas.iter().map(|a| (*a as i128).abs()).max().unwrap();
+        let bmax = t.betas.iter().map(|b| (*b as i128).abs()).max().unwrap();
+        let (lo, hi) = (l - d, l + nseg * d);
+        let xmax = std::cmp::max(lo.abs(), hi.abs());
+        assert!(amax * xmax + bmax < (1i128 << 63));
+        total.push_str(&format!(r#"
+Lemma {n}_total : forall x out, word x -> ({lo} < sv 64 x < {hi})%Z ->
+  pwl_eval {p} {lb} {n}_alphas {n}_betas {n}_left {n}_divisor x = Ok out ->
+  Rabs (IZR (sv 64 out) / {one} - {k}_fn (IZR (sv 64 x) / {one}))
+  <= {rel} * {k}_fn (IZR (sv 64 x) / {one}) + {an}/{ad} + 1/{one}.
+Proof.
+  intros x out Hx Hd He.
+  assert (H1 : (0 <= {p})%Z) by lia. assert (H2 : (0 < {lb} < 62)%Z) by lia.
+  assert (H3 : table_small {n}_alphas {n}_betas {amax} {bmax} = true) by (vm_compute; reflexivity).
+  assert (H4 : (0 <= {xmax})%Z) by lia.
+  assert (H5 : ({amax} * {xmax} + {bmax} < 2 ^ 63)%Z) by (vm_compute; reflexivity).
+  assert (H6 : ({n}_left - {n}_divisor < sv 64 x < {n}_left + 2 ^ {lb} * {n}_divisor)%Z).
+  {{ unfold {n}_left, {n}_divisor. change (2 ^ {lb})%Z with {nseg}%Z. lia. }}
+  assert (H7 : (Z.abs (sv 64 x) <= {xmax})%Z) by lia.
+  assert (H8 : (- 2 ^ 63 <= sv 64 x - {n}_left < 2 ^ 63)%Z).
+  {{ unfold {n}_left. change (2 ^ 63)%Z with 9223372036854775808%Z. lia. }}
+  exact (pwl_total {k}_fn ({rel}) ({an}/{ad}) {p} {lb} {n}_alphas {n}_betas {n}_left {n}_divisor
+           {amax} {bmax} {xmax} H1 H2 {n}_table H3 H4 H5 x out Hx H6 H7 H8 He).
+Qed.
+"#, n = n, k = kind.name(), lo = lo, hi = hi, p = p, lb = lb, one = one, rel = rel, an = an, ad = ad, amax = amax, bmax = bmax, xmax = xmax, nseg = nseg));
+    }
+    out.note("file:Model/PwlData.v", json!(data));
+    out.note("file:Proofs/PwlTotal.v", json!(total));
+}
+
+pub fn run(tier: &str, seed: u64, out: &mut Out) {
+    if tier == "gen" {
+        gen_data(out);
+        return;
+    }
+    let mut rng = Rng::new(seed ^ 0xC20);
+    let mut worst = std::collections::BTreeMap::new();
+    run_pwl(tier, &mut rng, out, &mut worst);
+    run_newton(tier, &mut rng, out, &mut worst);
+    run_isqrt(tier, &mut rng, out, &mut worst);
+    run_goldschmidt(tier, &mut rng, out, &mut worst);
+    run_fixed_multiply(tier, &mut rng, out);
+    run_taylor(tier, &mut rng, out, &mut worst);
+    if tier == "thorough" {
+        run_compiled_smoke(out);
+    }
+    let w: serde_json::Map<String, serde_json::Value> = worst.iter().map(|(k, v)| (k.clone(), json!({"worst": v.v, "at": v.at}))).collect();
+    for (k, v) in worst.iter() {
+        eprintln!("[C20 worst] {} : {:.6} at {}", k, v.v, v.at);
+        // make the worst observed error visible in the evidence (input_distribution)
+        out.stat(&format!("worst {} = {:.5}", k, v.v));
+    }
+    out.note("worst_errors", serde_json::Value::Object(w));
+}
